@@ -22,13 +22,22 @@ import vlib  # noqa: E402
 from checks import translate_tie  # noqa: E402  (reused: _enclosing, COQ_MEM_KB)
 
 TDIR = os.path.join(vlib.COQ, "translate")
-_LEMMA = re.compile(r"^\s*Lemma\s+(TP_(\w+?)_parseFrom_eq)\b", re.M)
+_LEMMA = re.compile(r"^\s*Lemma\s+(TP_(\w+?)_eq)\b", re.M)
+# operations of Dbc/Parser.v (and below) that remain HAND MODEL ONLY, tied to the code by the differential run
+HAND_ONLY = ["Parser.nextToken / peekToken (p_look + Scanner.sc_scan)", "Parser.nextRune / peekRune (sc_Next / sc_peek)",
+             "Parser.useWhitespace (set_ws)", "Parser.string (string_loop: labelled loop over runes, strings.Builder)",
+             "Parser.int (DecFloat.int_of_token: the F12 conversion arithmetic)", "Parser.anyOf (variadic range)",
+             "Parser.failf / parseError (PErr; the error kind ESyntax / EValue is the model's classification of the message text)",
+             "strconv.Atoi / ParseUint / ParseFloat (DecFloat.v; num oracle stream)",
+             "the Validate methods / enumeration conversions (ident_valid, msgid_valid, object_type_of, attr_type_of, "
+             "access_type_of: translate_tie groups dbcid / dbcvalidate)", "text/scanner (Dbc/Scanner.v)"]
 # methods whose lemma is not (yet) proved stay "hand model, correspondence only"
 TIE_TEXT = (" In addition the per-definition parsing code is REGENERATED from the source on every run: harness/parsetrans "
             "translates the parseFrom methods of pkg/dbc/def.go (monadic subset, go/types-checked) to Gallina in the state monad "
             "of Dbc/Parser.v and coq/translate/ParserEquiv.v re-proves, for all parser states, that each translated method equals "
-            "the hand model (lemmas TP_<Def>_parseFrom_eq); the Parser helper methods of parser.go and the scanner remain hand "
-            "models tied by the differential run only.")
+            "the hand model (lemmas TP_<Def>_parseFrom_eq); likewise 18 Parser helper methods of parser.go (TP_Parser_<method>_eq) and "
+            "the dispatch loop of Parse (TP_Parser_Parse_eq). Hand model only (differential run): nextToken/peekToken, "
+            "nextRune/peekRune, useWhitespace, string, int, anyOf, failf, strconv, the scanner.")
 TIE_NOTE = (" Added trusted base of the parser translation tie: the translator harness/parsetrans/main.go (unverified Go program; "
             "its header states the reading of Go's semantics) and coq/translate/ParserGlue.v (Go struct field <-> Ast field).")
 TRUSTED = ("parser translation tie: the translator harness/parsetrans/main.go (unverified Go program; go/parser, go/types, "
@@ -81,13 +90,14 @@ def run_parser_tie(res, timeout=240):
             elif p[:1] == ["FILES"]:
                 files = p[1:]
         proved = [d for (_, d) in lemmas]
-        unproved = sorted(m[:-len("_parseFrom")] for m in translated if m[:-len("_parseFrom")] not in proved)
+        unproved = sorted(m for m in translated if m not in proved)
         cov["methods_translated"] = len(translated)
         cov["lemmas"] = [l for (l, _) in lemmas]
-        cov["hand_model_correspondence_only"] = unproved + ["Parser helper methods (parser.go)", "scanner (text/scanner)"]
-        gone = [d for d in proved if d + "_parseFrom" not in translated]
+        cov["translated_without_lemma"] = unproved
+        cov["hand_model_correspondence_only"] = unproved + HAND_ONLY
+        gone = [d for d in proved if d not in translated]
         if gone:
-            return broken("lemma TP_%s_parseFrom_eq has no translated method %s.parseFrom any more" % (gone[0], gone[0]),
+            return broken("lemma TP_%s_eq has no translated method %s any more" % (gone[0], gone[0]),
                           {"missing_methods": gone})
         targets = ["theories/Dbc/Ast.vo", "theories/Dbc/Scanner.vo", "theories/Dbc/DecFloat.vo", "theories/Dbc/Parser.vo", "theories/Dbc/Totality.vo"]
         rc, mk = vlib.sh(["bash", "-c", "ulimit -v %d; exec %s %s" % (
@@ -115,7 +125,8 @@ def run_parser_tie(res, timeout=240):
                 lemma = translate_tie._enclosing(lines, ln) or "?"
                 err = " ".join(m.group(2).split())[:240]
                 dm0 = re.search(r"([A-Za-z]+Def)_", lemma)  # TP_<Def>_parseFrom_eq and the auxiliary <Def>_loop_eq / _core lemmas
-                fn = dm0.group(1) + "_parseFrom" if dm0 else re.sub(r"^TP_|_eq$", "", lemma)
+                dm1 = re.search(r"(Parser_[A-Za-z]+)_", lemma)  # TP_Parser_<method>_eq, Parser_<method>_loop_eq
+                fn = dm0.group(1) + "_parseFrom" if dm0 else dm1.group(1) if dm1 else re.sub(r"^TP_|_eq$", "", lemma)
                 where = translated.get(fn, "")
                 tsrc = open(os.path.join(scratch, "ParserTranslated.v"), encoding="utf-8").read()
                 dm = re.search(r"Definition %s .*?\.\n\n" % re.escape(fn), tsrc, re.S)
@@ -133,10 +144,11 @@ def run_parser_tie(res, timeout=240):
                           {"print_assumptions": o2[-3000:]})
         cov["ok"] = True
         cov["wall_s"] = round(time.time() - t0, 2)
-        line = ("ParserTranslated.v regenerated from %s's current %s (%d parseFrom methods) and %d of them proved equal to the hand "
-                "model Dbc/Parser.v for all parser states (ParserEquiv.v: %s; closed under the global context); hand model, "
-                "correspondence only: %s" % (vlib.REPO, "|".join(files) or "source", len(translated), len(lemmas),
-                                             " ".join(l for (l, _) in lemmas), ", ".join(cov["hand_model_correspondence_only"])))
+        line = ("ParserTranslated.v regenerated from %s's current %s (%d methods: parseFrom of every definition kind, Parser helper "
+                "methods, Parse) and %d of them proved equal to the hand model Dbc/Parser.v for all parser states (ParserEquiv.v: %s; "
+                "closed under the global context); hand model, correspondence only: %s" % (
+                    vlib.REPO, "|".join(files) or "source", len(translated), len([d for d in proved if d in translated]),
+                    " ".join(l for (l, _) in lemmas), "; ".join(cov["hand_model_correspondence_only"])))
         res.corr_obligations.append(line)
         _hook_finish(res, line)
         return True
